@@ -2906,6 +2906,46 @@ let add_mm gm st b =
        in
        (b', (blk_full b'))
 
+(** val add_qr_item : val0 option list -> val0 option -> blk -> blk * bool **)
+
+let add_qr_item item st b =
+  if filled item
+  then let b' = { b_earliest = (upd_earliest b (nth_o item O)); b_bpi =
+         b.b_bpi; b_bp = b.b_bp; b_stats = (with_stats b.b_stats st); b_tb =
+         b.b_tb; b_qrs = (app b.b_qrs ((VR item) :: [])); b_aecs = b.b_aecs;
+         b_mms = b.b_mms }
+       in
+       (b', (blk_full b'))
+  else (b, (blk_full b))
+
+(** val add_mm_item : val0 option list -> val0 option -> blk -> blk * bool **)
+
+let add_mm_item item st b =
+  if filled item
+  then let b' = { b_earliest = (upd_earliest b (nth_o item O)); b_bpi =
+         b.b_bpi; b_bp = b.b_bp; b_stats = (with_stats b.b_stats st); b_tb =
+         b.b_tb; b_qrs = b.b_qrs; b_aecs = b.b_aecs; b_mms =
+         (app b.b_mms ((VR item) :: [])) }
+       in
+       (b', (blk_full b'))
+  else (b, (blk_full b))
+
+(** val add_aec_item :
+    val0 option list -> val0 option -> blk -> blk * bool **)
+
+let add_aec_item key st b =
+  if negb (N.testbit b.b_bp.h_other (Npos XH))
+  then (b, false)
+  else let k = VR
+         ((nth_o key O) :: ((nth_o key (S O)) :: ((nth_o key (S (S O))) :: (
+         (nth_o key (S (S (S O)))) :: ((Some (VN N0)) :: [])))))
+       in
+       let b' = { b_earliest = b.b_earliest; b_bpi = b.b_bpi; b_bp = b.b_bp;
+         b_stats = (with_stats b.b_stats st); b_tb = b.b_tb; b_qrs = b.b_qrs;
+         b_aecs = (aec_bump b.b_aecs k); b_mms = b.b_mms }
+       in
+       (b', (blk_full b'))
+
 (** val to_u64 : z -> n **)
 
 let to_u64 z0 =
